@@ -564,8 +564,15 @@ class MarkdownNormalizer(Renderer):
         title = f" {link_title}" if link_title is not None else ""
         return f"[{link_text}]({element.dest}{title})"
 
+    @staticmethod
+    def _auto_link_text(element: inline.AutoLink) -> str:
+        # The link as written. Marko normalizes `dest` ("mailto:" for email addresses, "http://"
+        # for bare www. links), which must not leak into the formatted text.
+        text_node = element.children[0]
+        return cast(str, text_node.children)
+
     def render_auto_link(self, element: inline.AutoLink) -> str:
-        return f"<{element.dest}>"
+        return f"<{self._auto_link_text(element)}>"
 
     def render_image(self, element: inline.Image) -> str:
         template = "![{}]({}{})"
@@ -712,7 +719,7 @@ class MarkdownNormalizer(Renderer):
 
     def render_url(self, element: gfm_elements.Url) -> str:
         """For GFM autolink URLs, just output the URL directly."""
-        return element.dest
+        return self._auto_link_text(element)
 
     def render_alert(
         self,
